@@ -326,6 +326,41 @@ impl<T> DataReaderEntity<T> {
         }
     }
 
+    /// To be called when the owner of the instance has left: the instance goes to the strongest of
+    /// the matched writers that still have it registered (the one with the lowest GUID if several
+    /// have the same strength) or has no owner until the next writer writes it
+    fn hand_over_instance_ownership(&mut self, instance_handle: &InstanceHandle) {
+        let new_owner = self
+            .instances
+            .iter()
+            .find(|x| x.handle() == instance_handle)
+            .and_then(|instance| {
+                instance
+                    .live_writer_list
+                    .iter()
+                    .filter_map(|writer_guid| {
+                        self.matched_publication_list
+                            .iter()
+                            .find(|x| &x.key().value == writer_guid)
+                    })
+                    .max_by_key(|x| {
+                        (
+                            x.ownership_strength().value,
+                            core::cmp::Reverse(x.key().value),
+                        )
+                    })
+                    .map(|x| x.key().value)
+            });
+        self.instance_ownership
+            .retain(|x| &x.instance_handle != instance_handle);
+        if let Some(owner_handle) = new_owner {
+            self.instance_ownership.push(InstanceOwnership {
+                instance_handle: *instance_handle,
+                owner_handle,
+            });
+        }
+    }
+
     #[tracing::instrument(skip(self))]
     pub fn add_reader_change(
         &mut self,
@@ -436,7 +471,6 @@ impl<T> DataReaderEntity<T> {
             no_writers_generation_count: instance.most_recent_no_writers_generation_count,
         };
 
-        let change_instance_handle = sample.instance_handle;
         if self.qos.ownership.kind == OwnershipQosPolicyKind::Exclusive {
             match self
                 .instance_ownership
@@ -451,20 +485,13 @@ impl<T> DataReaderEntity<T> {
                     owner_handle: sample.writer_guid,
                 }),
             }
-        }
 
-        if matches!(
-            sample.kind,
-            ChangeKind::NotAliveDisposed
-                | ChangeKind::NotAliveUnregistered
-                | ChangeKind::NotAliveDisposedUnregistered
-        ) {
-            if let Some(i) = self
-                .instance_ownership
-                .iter()
-                .position(|x| x.instance_handle == sample.instance_handle)
-            {
-                self.instance_ownership.remove(i);
+            // The owner gives up the instance by unregistering it (not by disposing it)
+            if matches!(
+                sample.kind,
+                ChangeKind::NotAliveUnregistered | ChangeKind::NotAliveDisposedUnregistered
+            ) {
+                self.hand_over_instance_ownership(&sample.instance_handle);
             }
         }
 
@@ -616,7 +643,6 @@ impl<T> DataReaderEntity<T> {
             instance.last_accepted_source_timestamp = sample.source_timestamp;
         }
 
-        let sample_writer_guid = sample.writer_guid;
         tracing::debug!(cache_change = ?sample, "Adding change to data reader history cache");
 
         match self.qos.destination_order.kind {
@@ -633,16 +659,6 @@ impl<T> DataReaderEntity<T> {
             DestinationOrderQosPolicyKind::ByReceptionTimestamp => self.sample_list.push(sample),
         }
 
-        if !self
-            .instance_ownership
-            .iter()
-            .any(|x| x.instance_handle == change_instance_handle)
-        {
-            self.instance_ownership.push(InstanceOwnership {
-                instance_handle: change_instance_handle,
-                owner_handle: sample_writer_guid,
-            });
-        }
         Ok(AddChangeResult::Added)
     }
 
